@@ -170,6 +170,14 @@ func (t Thing) WithConf(conf int) *Thing {
 	return cp
 }
 
+// LAZYINIT control: the map allocated here never reaches the caller's object
+func (t Thing) remember(k uint64) {
+	if t.M == nil {
+		t.M = map[uint64]uint64{}
+	}
+	t.M[k] = k
+}
+
 // SHARED control: ShallowCopy shares the map M, which put() stores through
 func (t *Thing) put(k uint64) { t.M[k] = k }
 
